@@ -184,9 +184,7 @@ func TestC12GroupScalar(t *testing.T) {
 				case "Neg", "Inv":
 					alias = kit.DrawAlias2(t)
 				case "IsEqual":
-					if rapid.Bool().Draw(t, "same") {
-						yv, yc = xv, xc
-					}
+					yv, yc = f.DrawSecond(t, xv, xc, "y2")
 				}
 				if alias == kit.AliasXY || alias == kit.AliasAll {
 					yv, yc = xv, xc
@@ -325,5 +323,42 @@ func TestC12GroupScalar(t *testing.T) {
 				}
 			})
 		})
+	}
+}
+
+// Deterministic sweep of the zero / equality tests over every single-bit and one-limb pattern.
+func TestC12ScalarPredicateSweep(t *testing.T) {
+	defer vlib.Done()
+	kit.SweepPredicates(t, &kit.Preds[goldilocks.Scalar]{F: &kit.F{Name: "goldilocks.Scalar", P: ed448Order, Bits: 448, C: 1},
+		Type: "goldilocks.Scalar", Backend: "go", From: gFrom,
+		IsZero: func(x *goldilocks.Scalar) bool { return x.IsZero() }})
+	for _, gr := range []struct {
+		name string
+		g    group.Group
+		n    *big.Int
+		size int
+		be   bool
+	}{
+		{"group.P256", group.P256, elliptic.P256().Params().N, 32, true},
+		{"group.P384", group.P384, elliptic.P384().Params().N, 48, true},
+		{"group.P521", group.P521, elliptic.P521().Params().N, 66, true},
+		{"group.Ristretto255", group.Ristretto255, kit.Hex("1000000000000000000000000000000014def9dea2f79cd65812631a5cf5d3ed"), 32, false},
+	} {
+		gr := gr
+		kit.SweepPredicates(t, &kit.Preds[group.Scalar]{F: &kit.F{Name: gr.name, P: gr.n, Bits: 8 * gr.size, C: 1, Reduced: true},
+			Type: gr.name, Backend: "go",
+			From: func(v *big.Int) group.Scalar {
+				s := gr.g.NewScalar()
+				b := vlib.LE(v, gr.size)
+				if gr.be {
+					b = vlib.BE(v, gr.size)
+				}
+				if err := s.UnmarshalBinary(b); err != nil {
+					panic(err)
+				}
+				return s
+			},
+			IsZero:  func(x *group.Scalar) bool { return (*x).IsZero() },
+			IsEqual: func(x, y *group.Scalar) bool { return (*x).IsEqual(*y) }})
 	}
 }
